@@ -47,6 +47,9 @@ Definition proto_index (p : pyproto) : option Z :=
 
 (* ---------------------------------------------------------------- save / load *)
 
+(** the two ways of getting the pickle into the file (revisions of save()) *)
+Inductive write_order := DumpIntoOpenFile | DumpsThenWrite.
+
 Section Persist.
   Variable obj : Type.                       (* Python object graphs *)
   Variable kind_of : obj -> kind.
@@ -63,19 +66,33 @@ Section Persist.
     fun q => if String.eqb q p then Some b else f q.
 
   (** save(obj, filename, pickle_protocol): the file system afterwards and the outcome.
-      Order of the code: isinstance check, protocol range check, open (creates or
-      truncates), pickle.dump.  Exceptions other than IOError / PicklingError are not
-      caught at all; the caught ones are logged and re-raised: same outcome. *)
-  Definition save (o : obj) (path : string) (pr : pyproto) (f : fs) : fs * res unit :=
+      Order of the code: isinstance check, protocol range check, then
+      - [DumpIntoOpenFile] (the code as found): open (creates or truncates), pickle.dump into it;
+      - [DumpsThenWrite]: pickle.dumps to memory, then open and write.
+      Exceptions other than IOError / PicklingError are not caught at all; the caught ones
+      are logged and re-raised: same outcome. *)
+  Definition save (w : write_order) (o : obj) (path : string) (pr : pyproto) (f : fs) : fs * res unit :=
     if negb (is_savable (kind_of o)) then (f, Raise TypeError)
     else if negb (proto_in_range pr) then (f, Raise ValueError)
-    else if negb (dir_exists path) then (f, Raise FileNotFoundError)
     else
-      match proto_index pr with
-      | None => (upd f path empty_file, Raise TypeError)
-      | Some p =>
-          if picklable o then (upd f path (dumps o p), Ok tt)
-          else (upd f path (dump_partial o p), Raise PicklingError)
+      match w with
+      | DumpIntoOpenFile =>
+          if negb (dir_exists path) then (f, Raise FileNotFoundError)
+          else
+            match proto_index pr with
+            | None => (upd f path empty_file, Raise TypeError)
+            | Some p =>
+                if picklable o then (upd f path (dumps o p), Ok tt)
+                else (upd f path (dump_partial o p), Raise PicklingError)
+            end
+      | DumpsThenWrite =>
+          match proto_index pr with
+          | None => (f, Raise TypeError)
+          | Some p =>
+              if picklable o then
+                if dir_exists path then (upd f path (dumps o p), Ok tt) else (f, Raise FileNotFoundError)
+              else (f, Raise PicklingError)
+          end
       end.
 
   (** load(filename) *)
